@@ -273,34 +273,43 @@ def gen_ext(rng, schema, n):
             t = {"k": "nonNull", "t": t}
         return t
 
+    # rare-but-valid names in the extension DOCUMENT: blocks on types named `_…` / `on` / `type` / one letter (when the
+    # source has them), and new types / fields / values / directives with a leading underscore
+    rare = rng.random() < 0.4
+    u = "_" if rare else ""
+
+    def pick(pool):
+        special = [x for x in pool if x in W.RARE_TYPE_NAMES]
+        return rng.choice(special) if special and rng.random() < 0.6 else rng.choice(pool)
+
     zed = None
     if rng.random() < 0.7:
-        zed = "Zed%d" % n
+        zed = "%sZed%d" % (u, n)
         ext["new_types"].append({"kind": "object", "name": zed, "fields": [
-            {"name": "z_val", "ty": ty("Int"), "args": []},
-            {"name": "z_ref", "ty": ty(rng.choice(out_pool + [zed])), "args": [{"name": "z_arg", "ty": ty("Int")}] if rng.random() < 0.5 else []}]})
+            {"name": u + "z_val", "ty": ty("Int"), "args": []},
+            {"name": "z_ref", "ty": ty(rng.choice(out_pool + [zed])), "args": [{"name": u + "z_arg", "ty": ty("Int")}] if rng.random() < 0.5 else []}]})
         out_pool = out_pool + [zed]
     if names["object"] and rng.random() < 0.6:
-        o = rng.choice(names["object"])
-        ext["fields"].setdefault(o, []).append({"name": "ext_f%d" % n, "ty": ty(rng.choice(out_pool)), "args": []})
+        o = pick(names["object"])
+        ext["fields"].setdefault(o, []).append({"name": "%sext_f%d" % (u, n), "ty": ty(rng.choice(out_pool)), "args": []})
     if names["interface"] and rng.random() < 0.35:
-        i = rng.choice(names["interface"])
-        f = {"name": "ext_if%d" % n, "ty": ty(rng.choice(W.SCALARS)), "args": []}
+        i = pick(names["interface"])
+        f = {"name": "%sext_if%d" % (u, n), "ty": ty(rng.choice(W.SCALARS)), "args": []}
         ext["fields"].setdefault(i, []).append(f)
         for o in names["object"]:
             if any(x.name == i for x in schema.types[o].interfaces):
                 ext["fields"].setdefault(o, []).append(copy.deepcopy(f))
     if names["union"] and zed and rng.random() < 0.5:
-        ext["members"][rng.choice(names["union"])] = [zed]
+        ext["members"][pick(names["union"])] = [zed]
     if names["enum"] and rng.random() < 0.4:
-        ext["values"][rng.choice(names["enum"])] = ["EXT_V%d" % n]
+        ext["values"][pick(names["enum"])] = ["%sEXT_V%d" % (u, n)]
     if names["input"] and rng.random() < 0.4:
         t = ty(rng.choice(W.SCALARS + names["enum"]))
         if t["k"] == "nonNull":
             t = t["t"]      # a new REQUIRED input field would invalidate existing default values of that input type
-        ext["input_fields"][rng.choice(names["input"])] = [{"name": "ext_i%d" % n, "ty": t}]
+        ext["input_fields"][pick(names["input"])] = [{"name": "%sext_i%d" % (u, n), "ty": t}]
     if rng.random() < 0.25:
-        ext["new_dirs"].append({"name": "ext_dir%d" % n, "args": [{"name": "d_arg", "ty": ty("Int")}], "locs": ["FIELD"]})
+        ext["new_dirs"].append({"name": "%sext_dir%d" % (u, n), "args": [{"name": u + "d_arg", "ty": ty("Int")}], "locs": ["FIELD"]})
     if not any(ext[k] for k in ext):
         ext["new_types"].append({"kind": "object", "name": "Zed%d" % n, "fields": [{"name": "z_val", "ty": ty("Int"), "args": []}]})
     return ext
@@ -880,6 +889,13 @@ def one_sequence(ctx, seed_note, size, n_steps, steps=None, build_seed=None):
         record["steps"].append(step)
         model_steps.append(step)
         ctx.stat("step:%s:%s" % (_step_label(step), status.split(":")[0]))
+        if step["op"] == "extend":
+            e = step["ext"]
+            targets = list(e["fields"]) + list(e["input_fields"]) + list(e["members"]) + list(e["values"])
+            if any(t in W.RARE_TYPE_NAMES for t in targets):
+                ctx.stat("extend:block-on-a-type-with-a-rare-name:%s" % status.split(":")[0])
+            if any(t["name"].startswith("_") for t in e["new_types"]):
+                ctx.stat("extend:new-names-with-a-leading-underscore:%s" % status.split(":")[0])
         found = []
 
         def fail(sig, what, found=found):
